@@ -18,6 +18,7 @@ import (
 	"sort"
 	"strings"
 	"sync"
+	"sync/atomic"
 	"time"
 
 	"google.golang.org/protobuf/proto"
@@ -471,6 +472,13 @@ func init() {
 					os.Remove(filepath.Join(env.cache, "cas", o.GetDirectory().GetTreeDigest().GetHash()))
 				case d == "file" && o.GetFile() != nil:
 					os.Remove(filepath.Join(env.cache, "cas", o.GetFile().GetDigest().GetHash()))
+				case d == "dirfiles" && o.GetDirectory() != nil:
+					// every file blob the tree references
+					if tb, ok := blobs[o.GetDirectory().GetTreeDigest().GetHash()]; ok {
+						for _, fd := range treeFileDigests(tb) {
+							os.Remove(filepath.Join(env.cache, "cas", fd))
+						}
+					}
 				}
 			}
 		}
@@ -537,12 +545,25 @@ func init() {
 
 // traceLog is the global, totally ordered log of backend events of one case.
 type traceLog struct {
-	inflight sync.WaitGroup
+	inflight atomic.Int64
 	mu       sync.Mutex
 	events   []map[string]any
 	keyLocks map[string]*sync.RWMutex
 	treeKeys map[string]bool
 	useLocks bool
+}
+
+// waitIdle returns when no backend operation has been in flight for a short while.
+func (t *traceLog) waitIdle() {
+	idle := 0
+	for i := 0; i < 2000 && idle < 3; i++ {
+		if t.inflight.Load() == 0 {
+			idle++
+		} else {
+			idle = 0
+		}
+		time.Sleep(5 * time.Millisecond)
+	}
 }
 
 func (t *traceLog) add(ev map[string]any) {
@@ -602,7 +623,7 @@ func resName(ok bool, err error) string {
 
 func (b *procBackend) Exists(ctx context.Context, path, key string) (bool, error) {
 	b.log.inflight.Add(1)
-	defer b.log.inflight.Done()
+	defer b.log.inflight.Add(-1)
 	n, f := b.next()
 	if b.log.useLocks {
 		l := b.log.lockFor(path, key)
@@ -620,7 +641,7 @@ func (b *procBackend) Exists(ctx context.Context, path, key string) (bool, error
 
 func (b *procBackend) Get(ctx context.Context, path, key string) (io.ReadCloser, error) {
 	b.log.inflight.Add(1)
-	defer b.log.inflight.Done()
+	defer b.log.inflight.Add(-1)
 	n, f := b.next()
 	if b.log.useLocks {
 		l := b.log.lockFor(path, key)
@@ -694,7 +715,7 @@ func treeFileDigests(content []byte) []string {
 
 func (b *procBackend) Set(ctx context.Context, path, key string, content io.Reader) error {
 	b.log.inflight.Add(1)
-	defer b.log.inflight.Done()
+	defer b.log.inflight.Add(-1)
 	n, f := b.next()
 	data, rerr := io.ReadAll(content)
 	if rerr != nil {
@@ -949,7 +970,7 @@ func init() {
 		wg.Wait()
 		// uploadFiles / WriteOutputs return on the first error while the other uploads are still running:
 		// wait until every backend operation that was started has returned before looking at the cache
-		tl.inflight.Wait()
+		tl.waitIdle()
 		res := map[string]any{"outcomes": outcomes, "events": tl.events}
 		problems, stats := auditCache(env.cache)
 		res["audit"] = problems
